@@ -48,12 +48,10 @@ def _load():
         raise ImportFailure(f"tpmstream imported from {where}, expected {want}")
     ns = NS()
     from tpmstream.io.binary import Binary
-    from tpmstream.io.binary import marshal as bmarshal
     from tpmstream.common import error as err
     from tpmstream.common.event import MarshalEvent, WarningEvent
     from tpmstream.common.path import Path, PathNode
     from tpmstream.common.util import is_list
-    from tpmstream.common import constraints
     from tpmstream.spec.structures import structures_types
     from tpmstream.spec.commands import (
         Command,
@@ -70,14 +68,12 @@ def _load():
     from tpmstream.spec.common.values import NamedRange, ValidValues
 
     ns.Binary = Binary
-    ns.bmarshal = bmarshal
     ns.err = err
     ns.MarshalEvent = MarshalEvent
     ns.WarningEvent = WarningEvent
     ns.Path = Path
     ns.PathNode = PathNode
     ns.is_list = is_list
-    ns.constraints = constraints
     ns.structures_types = list(structures_types)
     ns.Command, ns.Response, ns.CommandResponseStream = Command, Response, CommandResponseStream
     ns.command_response_types = list(command_response_types)
